@@ -121,8 +121,10 @@ class MultiMarker(BaseMarker):
             if not shared_markers:
                 return None
 
-            unique_markers = our_markers - their_markers
-            other_unique_markers = their_markers - our_markers
+            # Keep the written order: iterating the sets would make the result
+            # depend on the hash seed.
+            unique_markers = [m for m in self.markers if m not in their_markers]
+            other_unique_markers = [m for m in other.markers if m not in our_markers]
             unique_union = MultiMarker(*unique_markers) | (
                 MultiMarker(*other_unique_markers)
             )
